@@ -472,8 +472,13 @@ func ruleC16Accounting(c *Ctx) {
 		}
 	})
 	want := map[string]string{"string": "QuoteString", "[]byte": "QuoteBytes", "int64": "strconv.FormatInt", "float64": "strconv.FormatFloat", "bool": "strconv.FormatBool"}
+	// strconv.AppendX(dst, v, ...) is strconv.FormatX(v, ...) written behind dst (num.strconv-exact holds both to base 10 / 64 bits)
+	sameRendering := map[string]string{"strconv.AppendInt": "strconv.FormatInt", "strconv.AppendFloat": "strconv.FormatFloat", "strconv.AppendBool": "strconv.FormatBool"}
 	for typ, fn := range want {
 		got := producers[typ]
+		if alt, ok := sameRendering[got]; ok {
+			got = alt
+		}
 		c.Check(strings.HasSuffix(got, fn), "c16.accounting", key+"/arm/"+typ, c.P.Pos(f.Pos()), typ+" arguments are rendered by "+got, fmt.Sprintf("a %s argument is rendered by %q (want %s): its content reaches the statement unquoted or mis-formatted", typ, got, fn))
 	}
 	// what is written is what was rendered: the text handed to the buffer is the part itself, a constant, or the result of
@@ -843,8 +848,8 @@ func ruleC16LexerTokenizer(c *Ctx) {
 	if san != nil {
 		deepInstrs(san, func(_ *ssa.Function, _ *TB, b *ssa.BasicBlock, in ssa.Instruction) {
 			call, ok := in.(*ssa.Call)
-			if !ok || calleeName(call.Common()) != "strconv.FormatFloat" {
-				return
+			if !ok || (calleeName(call.Common()) != "strconv.FormatFloat" && calleeName(call.Common()) != "strconv.AppendFloat") {
+				return // AppendFloat is the same rendering written into a caller's buffer
 			}
 			nan, inf := false, false
 			for _, fc := range factsAt(b) {
@@ -866,7 +871,7 @@ func ruleC16LexerTokenizer(c *Ctx) {
 	if san != nil {
 		deepInstrs(san, func(_ *ssa.Function, _ *TB, b *ssa.BasicBlock, in ssa.Instruction) {
 			call, ok := in.(*ssa.Call)
-			if !ok || calleeName(call.Common()) != "strconv.FormatInt" {
+			if !ok || (calleeName(call.Common()) != "strconv.FormatInt" && calleeName(call.Common()) != "strconv.AppendInt") {
 				return
 			}
 			sawInt = true
